@@ -24,6 +24,15 @@ script = {
                                       ASGI where the action is a callable returning an awaitable, also
                                       'sync_returns_coro', 'future' (Task), 'gather', 'awaitable' (__await__ object);
                                       the ASGI-only forms fall back to 'function' on WSGI.  A hook is a hook.
+  'hform', 'sform': the callable form of the registered error handler / of the sink (function, object, partial,
+                                      method, falsy_object = a callable object whose truth value is False)
+  'hostile_exc':  the application errors have __str__/__repr__ that raise
+  comps[i]['falsy']: the component object's truth value is False
+  'refused':      {'why': 'cors'|'nomethods'|'compat', 'order': 0|1, 'reprepare': bool}: right after construction an
+                                      add_middleware() call is made that the framework refuses with an exception
+                                      (payload: an extra, otherwise valid component numbered 90 plus an unacceptable
+                                      one); the refused components are not part of the stack: they never appear in
+                                      any trace, and later add_middleware() calls work as usual
   'mw_arg', 'cors': how the middleware argument is spelled (list/tuple/iter/bare component) and whether
                                       cors_enable is set - neither changes what is expected of the user's stack
   comps[i]['lform']: how the lifespan handlers are provided (method/static/classmethod/instance attribute/
@@ -144,7 +153,7 @@ def site_codes(script):
     return {s: n for n, s in enumerate(sites)}
 
 
-SYNC_HOOK_FORMS = ('function', 'object', 'partial', 'method')
+SYNC_HOOK_FORMS = ('function', 'object', 'partial', 'method', 'falsy_object')
 ASYNC_ONLY_HOOK_FORMS = ('sync_returns_coro', 'future', 'gather', 'awaitable')
 
 
@@ -206,8 +215,13 @@ class _Interp:
             self.status = status_status(self.codes, site)
         elif a == 'app_unhandled':
             self.status = 500
+            if self.script.get('hostile_exc'):
+                self.classes.add('hostile.unhandled')
         elif a == 'app_handled':
             self.trace.append(('H', site))
+            self.classes.add('hform.' + (self.script.get('hform') or 'function'))
+            if self.script.get('hostile_exc'):
+                self.classes.add('hostile.handled')
             ha = self.case['hactions'][self.hcount % len(self.case['hactions'])] if self.case.get('hactions') else 'ret'
             self.hcount += 1
             if ha == 'ret':
@@ -291,6 +305,7 @@ class _Interp:
                     self.classes.add('own.class_hook')
                 self.responder_stack(hooks, 0, responder, rtag, dict(fields))
             elif responder == 'sink':
+                self.classes.add('sform.' + (script.get('sform') or 'function'))
                 self.call('S', ('S', tuple(fields)))
             elif responder == '404':
                 self.default_raise(404)
@@ -374,7 +389,7 @@ def interpret_lifespan(script, lactions, late=None):
             trace.append(('startup', i))
             if late and late['when'] == 'startup' and late['by'] == i:
                 present = n                          # appended: they follow in the same order
-            if lactions.get('M%d.startup' % i) == 'raise':
+            if (lactions.get('M%d.startup' % i) or '').startswith('raise'):
                 sent.append('lifespan.startup.failed')
                 return trace, sent
         i += 1
@@ -384,7 +399,7 @@ def interpret_lifespan(script, lactions, late=None):
     for i in reversed(range(present)):
         if comps[i].get('shutdown'):
             trace.append(('shutdown', i))
-            if lactions.get('M%d.shutdown' % i) == 'raise':
+            if (lactions.get('M%d.shutdown' % i) or '').startswith('raise'):
                 sent.append('lifespan.shutdown.failed')
                 return trace, sent
     sent.append('lifespan.shutdown.complete')
